@@ -192,6 +192,30 @@ def richardson(vals, h):
     return (4 * d2 - d1) / 3.0, np.abs(d2 - d1)
 
 
+def fd_ladder(f, u0, k, h0, scale, rel=1e-3, levels=4):
+    """derivative of the scalar f in coordinate k by central differences + Richardson on a ladder of step sizes
+    h0, h0/4, h0/16, ...: returns (estimate, error bound, step) of the FIRST level whose estimate agrees with the next
+    finer one to rel/4 (+ the integrator-noise floor 1e-7*scale/h); (estimate, inf, step) when no two levels agree.
+    A single pair of step sizes is not enough on strongly non-linear costs (FitzHugh, c ~ 3): two coarse
+    difference quotients can agree with each other to 1% and both be 50% off."""
+    def level(h):
+        vals = []
+        for d in (h, -h, h / 2, -h / 2):
+            uu = list(u0); uu[k] += d
+            vals.append(float(f(uu)))
+        return richardson(vals, h)[0]
+    h = h0
+    prev = level(h)
+    for _ in range(levels - 1):
+        h2 = h / 4.0
+        cur = level(h2)
+        noise = 1e-7 * scale / h2
+        if abs(cur - prev) <= 0.25 * rel * (1 + abs(cur)) + noise:
+            return cur, abs(cur - prev), h2
+        prev, h = cur, h2
+    return prev, float("inf"), h
+
+
 def classify(site, cls, case, states, params, got, fd):
     s = case["setup"]
     tp, ts, obs = case["target_param"], case["target_state"], s["obs"]
@@ -353,12 +377,7 @@ def run_grad(case):
             try:
                 gb, eb, hb = [], [], []
                 for k in range(r):
-                    h = 1e-2 * max(abs(u0[k]), 0.05)
-                    vals = []
-                    for d in (h, -h, h / 2, -h / 2):
-                        uu = list(u0[:r]); uu[k] += d
-                        vals.append(float(obj.cost(uu)))
-                    d_, e_ = richardson(vals, h)
+                    d_, e_, h = fd_ladder(obj.cost, list(u0[:r]), k, 1e-2 * max(abs(u0[k]), 0.05), scale)
                     gb.append(d_); eb.append(e_); hb.append(h)
                 compare("sensitivity/own-cost", g_sens, np.array(gb), np.array(eb), tol_extra=1e-7 * scale / np.array(hb), rel=1e-3)
             except Exception as exc:
@@ -403,12 +422,7 @@ def run_grad(case):
             compare("sensitivityIV/reference-cost", gi, gi_ref, gi_err)
             gb, eb, hb = [], [], []
             for k in range(len(u0)):
-                h = 1e-2 * max(abs(u0[k]), 0.05)
-                vals = []
-                for d in (h, -h, h / 2, -h / 2):
-                    uu = list(u0); uu[k] += d
-                    vals.append(float(obj.costIV(uu)))
-                d_, e_ = richardson(vals, h)
+                d_, e_, h = fd_ladder(obj.costIV, list(u0), k, 1e-2 * max(abs(u0[k]), 0.05), scale)
                 gb.append(d_); eb.append(e_); hb.append(h)
             compare("sensitivityIV/own-costIV", gi, np.array(gb), np.array(eb), tol_extra=1e-7 * scale / np.array(hb), rel=1e-3)
         except Exception as exc:
